@@ -439,6 +439,58 @@ async fn exec(w: &mut World, log: &mut Log, st: &mut Stats, line: &str) {
             }
             None => "noactor".into(),
         },
+        // `killwait`: two parties end the same actor with no poll in between: `kill()`, then
+        // `kill_and_wait()`; `stopwait`: `stop_and_wait()`. When the waiting call returns Ok, the actor
+        // must be Stopped and its name free — judged at once, before anything else runs.
+        ["killwait", k] | ["stopwait", k] => match k.parse::<u64>().ok().and_then(|k| w.recs.get(&k).cloned()) {
+            Some(r) if r.cell.get_status() < ActorStatus::Stopping => {
+                let kill = t[0] == "killwait";
+                // `res`: the waiting call said Ok. (A thread-local actor runs in real time on another
+                // thread, so no timeout on the paused clock of this runtime.)
+                let res = if kill {
+                    r.cell.kill();
+                    r.cell.kill_and_wait(None).await.is_ok()
+                } else {
+                    r.cell.stop_and_wait(None, None).await.is_ok()
+                };
+                let stopped_now = r.cell.get_status() == ActorStatus::Stopped;
+                let held_now = r.name.map(|n| registry::where_is(nm(n)).map(|c| c.get_id() == r.cell.get_id()).unwrap_or(false)).unwrap_or(false);
+                quiesce().await;
+                quiesce().await;
+                if r.tl.is_some() {
+                    let c = r.cell.clone();
+                    settle(move || c.get_status() == ActorStatus::Stopped);
+                    quiesce().await;
+                }
+                st.bump(t[0]);
+                if !res {
+                    "err".into()
+                } else if !stopped_now || held_now {
+                    "early".into()
+                } else {
+                    "ok".into()
+                }
+            }
+            Some(_) => "notlive".into(),
+            None => "noactor".into(),
+        },
+        // a call through a stale reference to an actor that sits in post_stop (status Stopping):
+        // `drain()` must not rewind its status, `stop()` has nobody left to listen
+        ["late", k, how] => match k.parse::<u64>().ok().and_then(|k| w.recs.get(&k).cloned()) {
+            Some(r) if r.cell.get_status() >= ActorStatus::Stopping => {
+                match *how {
+                    "drain" => {
+                        let _ = r.cell.drain();
+                    }
+                    _ => r.cell.stop(None),
+                }
+                quiesce().await;
+                st.bump(&format!("late_{how}"));
+                "ok".into()
+            }
+            Some(_) => "notparked".into(),
+            None => "noactor".into(),
+        },
         ["lookup", n] => match n.parse::<u64>() {
             Ok(n) => match registry::where_is(nm(n)) {
                 Some(c) => {
@@ -622,16 +674,19 @@ async fn gen_case(w: &mut World, log: &mut Log, st: &mut Stats, rng: &mut Rng, c
             } else {
                 format!("spawnproxy {} -", next - 1)
             }
+        } else if c < 53 && !live.is_empty() {
+            format!("{} {}", *rng.pick(&["killwait", "stopwait"]), rng.pick(&live))
         } else if c < 66 && !live.is_empty() {
             let how = *rng.pick(&["stop", "kill", "drain"]);
             format!("exit {} {how}", rng.pick(&live))
         } else if c < 73 && !live.is_empty() {
             format!("exitbegin {}", rng.pick(&live))
         } else if c < 82 && !held.is_empty() {
-            if rng.chance(1, 3) {
-                format!("exit {} kill", rng.pick(&held))
-            } else {
-                format!("exitend {}", rng.pick(&held))
+            match rng.below(6) {
+                0 | 1 => format!("exit {} kill", rng.pick(&held)),
+                2 => format!("late {} drain", rng.pick(&held)),
+                3 => format!("late {} stop", rng.pick(&held)),
+                _ => format!("exitend {}", rng.pick(&held)),
             }
         } else if c < 88 && !dead.is_empty() {
             format!("waitret {}", rng.pick(&dead))
@@ -748,6 +803,8 @@ mod thr {
         Spawn { k: u64, n: u64, fail: bool },
         Exit { k: u64, kill: bool },
         Lookup { n: u64 },
+        /// `drain()` through a stale reference on ANOTHER thread's actor, only once it is stopping
+        LateDrain { k: u64 },
     }
 
     #[derive(Clone, Debug)]
@@ -760,6 +817,8 @@ mod thr {
     struct Shared {
         ctx: Mutex<HashMap<usize, Act>>,
         events: Mutex<Vec<Ev>>,
+        /// cells by actor index, filled in by the controller as soon as a registration is seen
+        cells: Mutex<HashMap<u64, ActorCell>>,
         done: std::sync::Barrier,
     }
 
@@ -810,6 +869,15 @@ mod thr {
                         let found = registry::where_is(nm(n)).map(|c| (c.get_id(), status_num(c.get_status())));
                         sh.events.lock().unwrap().push(Ev::Lookup { found });
                     }
+                    Act::LateDrain { k } => {
+                        let c = sh.cells.lock().unwrap().get(&k).cloned();
+                        if let Some(c) = c {
+                            // statuses only grow: once Stopping has been seen the drain is a late one
+                            if c.get_status() >= ActorStatus::Stopping {
+                                let _ = c.drain();
+                            }
+                        }
+                    }
                 }
             }
         });
@@ -824,6 +892,23 @@ mod thr {
     /// Programs: every thread spawns under shared names, looks names up, exits its own
     /// actors and respawns; the last actions exit whatever the thread still owns.
     fn gen_programs(rng: &mut Rng) -> Vec<Vec<Act>> {
+        if rng.chance(1, 4) {
+            // the late-drain window: thread 0's actor exits; thread 1 drains it through a stale
+            // reference while it is stopping, takes the name, drains again
+            let kill = rng.chance(1, 3);
+            let mut t1 = vec![Act::LateDrain { k: 0 }];
+            for _ in 0..rng.range(1, 3) {
+                t1.push(match rng.below(3) {
+                    0 => Act::Lookup { n: 0 },
+                    _ => Act::LateDrain { k: 0 },
+                });
+            }
+            t1.push(Act::Spawn { k: 1, n: 0, fail: false });
+            t1.push(Act::LateDrain { k: 0 });
+            t1.push(Act::Lookup { n: 0 });
+            t1.push(Act::Exit { k: 1, kill: false });
+            return vec![vec![Act::Spawn { k: 0, n: 0, fail: false }, Act::Exit { k: 0, kill }], t1];
+        }
         let nthreads = rng.range(2, 3) as usize;
         let n_names = rng.range(1, 2);
         let mut k = 0u64;
@@ -979,6 +1064,7 @@ mod thr {
         let sh = Arc::new(Shared {
             ctx: Mutex::new(HashMap::new()),
             events: Mutex::new(Vec::new()),
+            cells: Mutex::new(HashMap::new()),
             done: std::sync::Barrier::new(progs.len() + 1), // the threads and the controller
         });
         // in the cluster build the pid table is compared too
@@ -1053,7 +1139,7 @@ mod thr {
             let _ = ctls[tid].wait_parked_timeout(Duration::from_secs(20));
             steps += 1;
             let k = match &act {
-                Act::Spawn { k, .. } | Act::Exit { k, .. } => *k,
+                Act::Spawn { k, .. } | Act::Exit { k, .. } | Act::LateDrain { k } => *k,
                 Act::Lookup { .. } => 0,
             };
             let mut events: Vec<Ev> = std::mem::take(&mut *sh.events.lock().unwrap());
@@ -1071,6 +1157,7 @@ mod thr {
                                 gate: Arc::new(tokio::sync::Notify::new()),
                                 tl: None,
                             };
+                            sh.cells.lock().unwrap().insert(k, rec.cell.clone());
                             w.recs.insert(k, rec);
                             "ok"
                         }
@@ -1082,6 +1169,10 @@ mod thr {
                 "status.publish" => {
                     let s = pubs.get_mut(&k).and_then(|v| v.pop()).unwrap_or(9);
                     (format!("pub {k} {s}"), "ok".into())
+                }
+                "drain.status" if matches!(act, Act::LateDrain { .. }) => {
+                    st.bump("thr_late_drain");
+                    (format!("drain {k}"), "ok".into())
                 }
                 "status.unreg_pid" => (format!("unregpid {k}"), "ok".into()),
                 "reg.remove" => (format!("unregname {k}"), "ok".into()),
